@@ -369,6 +369,12 @@ static void run_script(char **lines, int nlines)
 				if (op[0] == 'R' && mtdp->in_exception)
 					mcount_rstack_rehook_exception(mtdp, (unsigned long)SLOT(a));
 				mtdp->in_exception = true;
+				/* the wrappers record their own frame address: a PLT call made below it comes
+				 * from the unwinder (--nest-libcall) and is not a landing-pad call.  The scripts
+				 * have no calls from inside the unwinder (rstep: they are untraced code), so the
+				 * throw point is put below every slot; the guard itself is checked end to end
+				 * (record -l on C++ programs, w_nestlib). */
+				mtdp->exception_frame = 0;
 				mcount_rstack_restore(mtdp);
 			}
 			if (op[0] == 'R')
